@@ -83,6 +83,13 @@ def call_value(ex, fv, node, st):
             if ex.known(st, fv.term == S.fn_const(qual)):
                 from .core import find_def
                 return apply_contract(ex, info, find_def(rel, qual), args, kw, st, node)
+        # an unidentified score function applied to one profile: a pure function of (function, profile) -- A-PUREFN, recorded as
+        # trusted whenever it is used (partial(score_profile_from_rankings, ...) and the like)
+        sp = ex.ctx.registry.specs.get("score_by") if ex.ctx.registry else None
+        if sp is not None and len(args) == 1 and not kw and isinstance(args[0], VRec) and args[0].cls == "Profile":
+            ex.ctx.trusted_used = getattr(ex.ctx, "trusted_used", set()) | {
+                "A-PUREFN: a function-valued field called on a profile (e.g. Borda's partial(score_profile_from_rankings, ...)) is a pure function of that profile"}
+            return apply_spec(ex, sp, [fv, args[0]], st)
         raise OutOfReach(f"call through function value {fv.name}: its identity is not determined")
     if isinstance(fv.node, ast.FunctionDef):
         info = ex.ctx.registry.lookup_fn(fv.module, fv.name, args)
